@@ -100,6 +100,27 @@ func relevant(pc []*Term, goal *Term) []*Term {
 
 // script builds the SMT-LIB text for an obligation.
 func (v *Verifier) script(o *Oblig, getValues []string, filtered bool) string {
+	return v.scriptOpt(o, getValues, filtered, false)
+}
+
+func hasQuant(t *Term) bool {
+	if t.IsLit {
+		return false
+	}
+	if t.Op == "forall" || t.Op == "exists" {
+		return true
+	}
+	for _, a := range t.Args {
+		if hasQuant(a) {
+			return true
+		}
+	}
+	return false
+}
+
+// scriptOpt: with dropQuant, quantified assumptions are left out (used only to
+// find candidate counterexamples, which are then replayed on the real code).
+func (v *Verifier) scriptOpt(o *Oblig, getValues []string, filtered bool, dropQuant bool) string {
 	var sb strings.Builder
 	sb.WriteString("(set-option :produce-models true)\n(set-logic ALL)\n")
 	sb.WriteString(prelude)
@@ -112,6 +133,67 @@ func (v *Verifier) script(o *Oblig, getValues []string, filtered bool) string {
 	pc := o.PC
 	if !o.MustSat && filtered {
 		pc = relevant(o.PC, o.Goal)
+	}
+	if !filtered && !o.MustSat && len(v.axiomSet) > 0 {
+		// global axioms are included only when they share a function symbol with the rest
+		var rest, axs []*Term
+		for _, p := range pc {
+			if v.axiomSet[p] {
+				axs = append(axs, p)
+			} else {
+				rest = append(rest, p)
+			}
+		}
+		used := map[string]bool{}
+		collect := func(t *Term) {
+			cs := map[string]string{}
+			fs := map[string]bool{}
+			t.Symbols(cs, fs)
+			for k := range fs {
+				used[k] = true
+			}
+			for k := range cs {
+				used[k] = true
+			}
+		}
+		for _, p := range rest {
+			collect(p)
+		}
+		collect(o.Goal)
+		pending := axs
+		for changed := true; changed; {
+			changed = false
+			var next []*Term
+			for _, a := range pending {
+				cs := map[string]string{}
+				fs := map[string]bool{}
+				a.Symbols(cs, fs)
+				hit := false
+				for k := range fs {
+					if strings.HasPrefix(k, "spec.") && used[k] {
+						hit = true
+					}
+				}
+				if hit {
+					rest = append(rest, a)
+					collect(a)
+					changed = true
+				} else {
+					next = append(next, a)
+				}
+			}
+			pending = next
+		}
+		pc = rest
+	}
+	if dropQuant {
+		var keep []*Term
+		for _, p := range pc {
+			if !hasQuant(p) {
+				keep = append(keep, p)
+			}
+		}
+		pc = keep
 	}
 	consts := map[string]string{}
 	fns := map[string]bool{}
@@ -345,6 +427,15 @@ func dischargeAll(jobs []*obJob, timeoutMs int, workers int, scratch string) {
 					r = r2
 				}
 				o.Verdict, o.Solver, o.Ms, o.Model, o.Outputs = r.verdict, r.solver, r.ms, r.output, r.outputs
+				if !o.MustSat && o.Verdict != "unsat" && o.Verdict != "sat" && len(j.values) > 0 && !hasQuant(o.Goal) {
+					// candidate counterexample from the quantifier-free part of the assumptions
+					script := j.v.scriptOpt(o, j.values, true, true)
+					r3 := solve(script, scratch, o.Name, min(timeoutMs, 5000), "")
+					if r3.verdict == "sat" {
+						o.Model = r3.output
+						o.Candidate = true
+					}
+				}
 			}
 		}()
 	}
